@@ -46,7 +46,7 @@ func genC17(t *rapid.T) CaseC17 {
 	var keys []string
 	var shape *shape
 	if rapid.Bool().Draw(t, "valuemap") {
-		shape = genRootShape(t, false)
+		shape = genRootShape(t, rapid.IntRange(0, 2).Draw(t, "lil") == 0)
 		c.Value = instantiate(t, shape).(map[string]interface{})
 		keys = shapeKeys
 	} else {
@@ -61,7 +61,7 @@ func genC17(t *rapid.T) CaseC17 {
 			switch o.Kind {
 			case "ValuesForPath", "ValuesForPathSub", "Exists", "Elements", "Attributes", "NewMap":
 				if shape != nil {
-					o.Arg = pathString(genShapePath(t, shape, o.Kind != "NewMap" && rapid.Bool().Draw(t, "indexed")))
+					o.Arg = pathString(genShapePath(t, shape, false))
 				} else {
 					n := rapid.IntRange(1, 3).Draw(t, "plen")
 					var segs []string
@@ -82,6 +82,9 @@ func genC17(t *rapid.T) CaseC17 {
 	c.Procs = rapid.SampledFrom([]int{2, 4, 16}).Draw(t, "procs")
 	c.Yield = rapid.IntRange(1, 4).Draw(t, "yield")
 	c.SeqViaJSON = rapid.Bool().Draw(t, "seqviajson")
+	if c.Value != nil && rapid.IntRange(0, 3).Draw(t, "nestedlists") == 0 {
+		c.Value["nl"] = []interface{}{[]interface{}{"a", "b", map[string]interface{}{"k": "v"}}, []interface{}{[]interface{}{"c"}}, "s"}
+	}
 	return c
 }
 
